@@ -196,37 +196,31 @@ func (p *Prompt) SecondaryPrint() {
 }
 
 // MultilineColumnPrint prints the multiline editor column status indicator.
-// It either prints a default, numbered or user-defined column.
-func (p *Prompt) MultilineColumnPrint() {
+// It either prints a default, numbered or user-defined column, or none at all.
+// The rows parameter gives, for each line of the buffer but the last, the number
+// of terminal rows it uses: the cursor, which must be on the first row of the
+// input when calling, always ends on the first row of the last line.
+func (p *Prompt) MultilineColumnPrint(rows []int) {
 	numbered := p.opts.GetBool("multiline-column-numbered")
 	custom := p.opts.GetString("multiline-column-custom")
 	defaultCol := p.opts.GetBool("multiline-column")
 
-	switch {
-	case numbered:
-		column := ""
-		for pos := 0; pos < p.line.Lines(); pos++ {
-			column += fmt.Sprintf("\n\x1b[1;30m%d\x1b[0m", pos+2)
+	column := ""
+
+	for pos, used := range rows {
+		column += strings.Repeat("\n", used)
+
+		switch {
+		case numbered:
+			column += fmt.Sprintf("\x1b[1;30m%d\x1b[0m", pos+2)
+		case len(custom) > 0:
+			column += fmt.Sprintf("%s\x1b[0m", custom)
+		case defaultCol:
+			column += multilineColumnDefault
 		}
-
-		fmt.Print(column)
-
-	case len(custom) > 0:
-		column := ""
-		for pos := 0; pos < p.line.Lines(); pos++ {
-			column += fmt.Sprintf("\n%s\x1b[0m", custom)
-		}
-
-		fmt.Print(column)
-
-	case defaultCol:
-		column := ""
-		for pos := 0; pos < p.line.Lines(); pos++ {
-			column += "\n" + multilineColumnDefault
-		}
-
-		fmt.Print(column)
 	}
+
+	fmt.Print(column)
 }
 
 // RightPrint prints the right-sided prompt strings, which might be either
